@@ -48,6 +48,7 @@ type world struct {
 	actors  []*holder // addresses that can be the precompile's caller (senders + puppets)
 	puppets []*holder
 	seqs    []*holder // sequencer contracts (two calls per transaction); they hold coins like puppets
+	peeker  *holder   // peekerCode: burns in an inner frame that reverts, then reads totalSupply() from the outer frame
 	funder  *holder
 	tok     [2]common.Address
 	meta    [2][3]any // name, symbol, decimals expected from each token
@@ -170,18 +171,24 @@ func newWorld(run *vh.Run, label string, wi int) (*world, error) {
 	price := new(big.Int).Mul(c.BaseFee(), big.NewInt(3))
 	var txs [][]byte
 	var contracts []*holder
-	for i := 0; i < 5; i++ {
+	for i := 0; i < 6; i++ {
 		code, kind, name := puppetCode(), "puppet", fmt.Sprintf("puppet%d", i)
 		if i >= 3 {
 			code, kind, name = sequencerCode(), "sequencer", fmt.Sprintf("sequencer%d", i-3)
+		}
+		if i == 5 {
+			code, kind, name = peekerCode(), "peeker", "peeker"
 		}
 		bz, _ := c.EthTx(deployer, vh.LegacyTx(nonce+uint64(i), nil, nil, 1_000_000, price, vh.Deployer(code)))
 		txs = append(txs, bz)
 		h := w.add(&holder{Addr: crypto.CreateAddress(deployer.Addr, nonce+uint64(i)), Kind: kind, Name: name})
 		contracts = append(contracts, h)
-		if i >= 3 {
+		switch {
+		case i == 5:
+			w.peeker = h
+		case i >= 3:
 			w.seqs = append(w.seqs, h)
-		} else {
+		default:
 			w.puppets = append(w.puppets, h)
 		}
 	}
